@@ -1,8 +1,87 @@
-import EpModel.Model.Dec.Headers
-import EpModel.Spec.Decode
-/- C06 — first theorems (extended below as they are proved) -/
+import EpModel.Lemmas.DecCopies
+import EpModel.Lemmas.DecLax
+import EpModel.Props.C15
+/-
+  C06 — equivalent entry points give equivalent answers.
+
+  The crate implements the IP boundary logic in twelve hand-copied variants and offers several doors to the
+  same bytes.  In the model (Model/Dec/Ip.lean) every copy is its own definition that follows the Rust
+  control flow of that copy (which checks come first, which error type is used, whether `len < 20` is
+  tested before the IHL); what the copies share is factored into `ipv4AfterHeaderStrict/Lax`,
+  `ipv6AfterHeaderStrict/Lax` - and that sharing is exactly what the correspondence check
+  (tools/epcheck/props/c06.py) validates against the twelve Rust functions on every run.
+
+  Proved here, for every memory and window:
+    * the dispatching decoders equal the version-specific ones (strict, lax; slice family, struct family),
+      up to the *names* of the header content errors, which are different Rust types; the one length
+      class where the answers differ in more than the name (IPv4 nibble, fewer than 20 bytes through
+      IpSlice/LaxIpSlice, which look at the IHL first) is excluded by hypothesis and characterised in
+      C03 (`ShortV4`) - both answers reject and both are true of the bytes;
+    * starting at the IPv4 / IPv6 ether type equals starting at IP (same packet with the link set);
+    * header readers vs `from_slice` for the IPv4 and IPv6 headers (re-exported from C15's bit-level model).
+  Not proved (checked by correspondence + oracle only): `from_ethernet` = header + `from_ether_type`
+  shifted by 14 - this needs placement independence of the whole model, which is validated at run time
+  on two placements of every input; the remaining header readers (C16 models their I/O).
+-/
 namespace EpModel.Props.C06
-open EpModel EpModel.Dec
+open EpModel EpModel.Dec EpModel.Lemmas.Refine EpModel.Lemmas.Copies
+
+/-! ### the twelve IP boundary implementations -/
+
+/-- strict slice family: IpSlice::from_slice vs Ipv4Slice::from_slice / Ipv6Slice::from_slice -/
+theorem ip_slice_dispatch_equals_specific (g : Mem) (o l : Nat) :
+    (g o / 16 = 4 → 20 ≤ l → ipSliceFromSlice g o l = renameErr (ipv4SliceFromSlice g o l)) ∧
+    (g o / 16 = 6 → 0 < l → ipSliceFromSlice g o l = ipv6SliceFromSlice g o l) ∧
+    (g o / 16 ≠ 4 → g o / 16 ≠ 6 → 0 < l → ipSliceFromSlice g o l = .error (.ipVersion (g o / 16))) :=
+  ⟨ipSlice_eq_ipv4Slice g o l, ipSlice_eq_ipv6Slice g o l, ipSlice_other g o l⟩
+
+/-- strict struct family: IpHeaders::from_slice vs from_ipv4_slice / from_ipv6_slice (all lengths) -/
+theorem ip_headers_dispatch_equals_specific (g : Mem) (o l : Nat) (h0 : 0 < l) :
+    (g o / 16 = 4 → ipHeadersFromSlice g o l = renameErr (ipHeadersFromIpv4Slice g o l)) ∧
+    (g o / 16 = 6 → ipHeadersFromSlice g o l = ipHeadersFromIpv6Slice g o l) :=
+  ⟨fun h => ipHeaders_eq_ipv4 g o l h h0, fun h => ipHeaders_eq_ipv6 g o l h h0⟩
+
+/-- struct vs slice, IPv4: IpHeaders::from_ipv4_slice is Ipv4Slice::from_slice -/
+theorem ip_headers_ipv4_equals_slice (g : Mem) (o l : Nat) :
+    ipHeadersFromIpv4Slice g o l = ipv4SliceFromSlice g o l := ipHeaders_ipv4_eq_ipv4Slice g o l
+
+/-- lax slice family -/
+theorem lax_ip_slice_dispatch_equals_specific (g : Mem) (o l : Nat) :
+    (g o / 16 = 4 → 20 ≤ l → laxIpSliceFromSlice g o l = renameErr (laxIpv4SliceFromSlice g o l)) ∧
+    (g o / 16 = 6 → 0 < l → laxIpSliceFromSlice g o l = laxIpv6SliceFromSlice g o l) :=
+  ⟨laxIpSlice_eq_laxIpv4Slice g o l, laxIpSlice_eq_laxIpv6Slice g o l⟩
+
+/-- lax struct family (this pair agrees on the error names as well) -/
+theorem lax_ip_headers_dispatch_equals_specific (g : Mem) (o l : Nat) (h0 : 0 < l) :
+    (g o / 16 = 4 → ipHeadersFromSliceLax g o l = ipHeadersFromIpv4SliceLax g o l) ∧
+    (g o / 16 = 6 → ipHeadersFromSliceLax g o l = ipHeadersFromIpv6SliceLax g o l) :=
+  ⟨fun h => ipHeadersLax_eq_ipv4Lax g o l h h0, fun h => ipHeadersLax_eq_ipv6Lax g o l h h0⟩
+
+/-! ### starting at the IP ether types = starting at IP -/
+
+theorem from_ipv4_ether_type_equals_from_ip (g : Mem) (n : Nat) (h4 : g 0 / 16 = 4) (h20 : 20 ≤ n) :
+    slicedFromEtherType g 0x0800 n =
+        mapOk (Packet.withLink · (some (.etherPayload 0x0800 ⟨0, n⟩))) (ipv4Path id Cur.new g 0 n) ∧
+      slicedFromIp g n = ipv4Path renameIp Cur.new g 0 n :=
+  from_ether_type_ipv4_vs_from_ip g n h4 h20
+
+theorem from_ipv6_ether_type_equals_from_ip (g : Mem) (n : Nat) (h6 : g 0 / 16 = 6) (h0 : 0 < n) :
+    slicedFromEtherType g 0x86dd n =
+      mapOk (Packet.withLink · (some (.etherPayload 0x86dd ⟨0, n⟩))) (slicedFromIp g n) :=
+  from_ether_type_ipv6_vs_from_ip g n h6 h0
+
+/-- hypotheses of the above are satisfiable and the conclusion is not about errors only -/
+example : (fun i => if i = 0 then 0x45 else 0 : Mem) 0 / 16 = 4 := by decide
+
+/-! ### readers vs slices (bit-level model of C15) -/
+
+theorem ipv4_read_equals_from_slice (b : Bytes) (h : EpModel.BitFields.Ip4) (r : Bytes)
+    (hd : EpModel.BitFields.Ip4.fromSlice b = .ok (h, r)) : EpModel.BitFields.Ip4.read b = some (.ok h) :=
+  EpModel.Props.C15.ip4_read_eq_from_slice b h r hd
+
+theorem ipv6_read_equals_from_slice (b : Bytes) (h : EpModel.BitFields.Ip6) (r : Bytes)
+    (hd : EpModel.BitFields.Ip6.fromSlice b = .ok (h, r)) : EpModel.BitFields.Ip6.read b = some (.ok h) :=
+  EpModel.Props.C15.ip6_read_eq_from_slice b h r hd
 
 /-- every strict UDP slice lies inside the slice it was cut from. -/
 theorem udp_within (g : Mem) (o l : Nat) (w : Win) (h : udpFromSlice g o l = .ok w) :
